@@ -66,7 +66,7 @@ structure Quiet (s s' : St) : Prop where
   running : s'.running = s.running
   task : ∀ (i : Nat) (t : Task), s.tasks[i]? = some t → ∃ t' : Task, s'.tasks[i]? = some t' ∧ t'.outcome = t.outcome ∧
     t'.hid = t.hid ∧
-    (t' = t ∨ (5 ≤ t.pc.rank ∧ t.pc.rank ≤ t'.pc.rank ∧ (t.outcome = .ok ∨ 6 ≤ t.pc.rank)))
+    (t' = t ∨ (5 ≤ t.pc.rank ∧ t.pc.rank ≤ t'.pc.rank ∧ (t.outcome.recovered = none ∨ 6 ≤ t.pc.rank)))
 
 theorem Quiet.refl (s : St) : Quiet s s :=
   ⟨⟨[], rfl⟩, rfl, rfl, rfl, rfl, rfl, fun _ t ht => ⟨t, ht, rfl, rfl, Or.inl rfl⟩⟩
@@ -93,7 +93,7 @@ theorem rank_of_running {pc : Pc} (h : (pc == Pc.running) = true) : pc.rank = 4 
 theorem quiet_of_set {s s' : St} {j : Nat} {t t' : Task} (ht : s.tasks[j]? = some t)
     (hadv : s.adv j = some s') (hn : s'.n = s.n) (hc : s'.cur = s.cur) (hw : s'.waiters = s.waiters)
     (hts : s'.tasks = s.tasks.set j t')
-    (h5 : 5 ≤ t.pc.rank) (hle : t.pc.rank ≤ t'.pc.rank) (hq : t.outcome = .ok ∨ 6 ≤ t.pc.rank)
+    (h5 : 5 ≤ t.pc.rank) (hle : t.pc.rank ≤ t'.pc.rank) (hq : t.outcome.recovered = none ∨ 6 ≤ t.pc.rank)
     (ho : t'.outcome = t.outcome) (hh : t'.hid = t.hid) : Quiet s s' := by
   have hlen : j < s.tasks.length := (List.getElem?_eq_some_iff.1 ht).1
   refine ⟨⟨[.adv j], by simp [St.run, St.step, hadv]⟩, hn, hc, hw, by simp [hts], ?_, ?_⟩
@@ -114,7 +114,7 @@ theorem quiet_of_set {s s' : St} {j : Nat} {t t' : Task} (ht : s.tasks[j]? = som
     · exact ⟨x, by rw [hts, List.getElem?_set_ne (Ne.symm hij)]; exact hx, rfl, rfl, Or.inl rfl⟩
 
 theorem adv_quiet {s s' : St} {j : Nat} {t : Task} (ht : s.tasks[j]? = some t)
-    (h5 : 5 ≤ t.pc.rank) (hq : t.outcome = .ok ∨ 6 ≤ t.pc.rank) (h : s.adv j = some s') :
+    (h5 : 5 ≤ t.pc.rank) (hq : t.outcome.recovered = none ∨ 6 ≤ t.pc.rank) (h : s.adv j = some s') :
     Quiet s s' ∧ ∃ t', s'.tasks[j]? = some t' ∧ 6 ≤ t'.pc.rank ∧ t'.outcome = t.outcome := by
   have h0 := h
   have hlen : j < s.tasks.length := (List.getElem?_eq_some_iff.1 ht).1
@@ -126,15 +126,15 @@ theorem adv_quiet {s s' : St} {j : Nat} {t : Task} (ht : s.tasks[j]? = some t)
     | omega
     | skip
   · -- recovering
-    cases outcome with
-    | ok =>
-      simp only [] at h
+    cases hrec : outcome.recovered with
+    | none =>
+      simp only [hrec] at h
       cases h
-      exact ⟨quiet_of_set ht h0 rfl rfl rfl rfl (by simp [Pc.rank]) (by simp [Pc.rank]) (Or.inl rfl) rfl rfl,
+      exact ⟨quiet_of_set ht h0 rfl rfl rfl rfl (by simp [Pc.rank]) (by simp [Pc.rank]) (Or.inl hrec) rfl rfl,
         _, List.getElem?_set_self hlen, by simp [Pc.rank], rfl⟩
-    | panic v =>
+    | some v =>
       rcases hq with hq | hq
-      · cases hq
+      · rw [hrec] at hq; cases hq
       · omega
   · -- cleanup
     split at h
@@ -154,7 +154,7 @@ theorem adv_quiet {s s' : St} {j : Nat} {t : Task} (ht : s.tasks[j]? = some t)
   · cases h
 
 theorem advN_quiet {j : Nat} (n : Nat) : ∀ {s s' : St} {t : Task}, s.tasks[j]? = some t →
-    5 ≤ t.pc.rank → (t.outcome = .ok ∨ 6 ≤ t.pc.rank) → advN s j n = some s' → Quiet s s' := by
+    5 ≤ t.pc.rank → (t.outcome.recovered = none ∨ 6 ≤ t.pc.rank) → advN s j n = some s' → Quiet s s' := by
   induction n with
   | zero =>
     intro s s' t _ _ _ h
@@ -176,8 +176,8 @@ theorem settle_quiet (s : St) : Quiet s (settle s) := by
   suffices ∀ (l : List Nat) (s0 s1 : St), Quiet s0 s1 → Quiet s0 (l.foldl (fun s i =>
       match s.tasks[i]? with
       | some t =>
-        match t.pc, t.outcome with
-        | .recovering, .ok => (advN s i 3).getD s
+        match t.pc, t.outcome.recovered with
+        | .recovering, none => (advN s i 3).getD s
         | .cleanup, _ => (advN s i 2).getD s
         | .wgDone, _ => (advN s i 1).getD s
         | _, _ => s
@@ -353,7 +353,7 @@ theorem TaskT.mono {tr : List Ev} {m : Nat → Nat} {i : Nat} {t : Task} (h : Ta
 /-- Moving a task quietly keeps what the trace says about it. -/
 theorem TaskT.quiet {tr : List Ev} {m : Nat → Nat} {i : Nat} {t t' : Task} (h : TaskT tr m i t)
     (ho : t'.outcome = t.outcome) (hh : t'.hid = t.hid)
-    (hr : t' = t ∨ (5 ≤ t.pc.rank ∧ t.pc.rank ≤ t'.pc.rank ∧ (t.outcome = .ok ∨ 6 ≤ t.pc.rank))) :
+    (hr : t' = t ∨ (5 ≤ t.pc.rank ∧ t.pc.rank ≤ t'.pc.rank ∧ (t.outcome.recovered = none ∨ 6 ≤ t.pc.rank))) :
     TaskT tr m i t' := by
   rcases hr with rfl | ⟨h5, hle, hq⟩
   · exact h
@@ -365,7 +365,7 @@ theorem TaskT.quiet {tr : List Ev} {m : Nat → Nat} {i : Nat} {t t' : Task} (h 
     · intro v hv _
       rw [ho] at hv
       rcases hq with hq | hq
-      · rw [hq] at hv; cases hv
+      · rw [hv] at hq; cases hq
       · exact h.handledOf v hv hq
 
 structure TInv (limit : Int) (tr : List Ev) (m : Nat → Nat) (s : St) : Prop where
